@@ -244,6 +244,18 @@ func (c *Canon) LocalTerms() []string {
 	return out
 }
 
+// SingleDef is the defining expression of a local that is defined exactly once and never re-assigned or address-taken
+// (nil otherwise), whether or not the local prints as that definition.
+func (c *Canon) SingleDef(o types.Object) ast.Expr {
+	if e, ok := c.expand[o]; ok {
+		return e
+	}
+	if e, ok := c.obsCand[o]; ok {
+		return e
+	}
+	return nil
+}
+
 // ConstOf is the exact constant value of e ("" when e is not constant).
 func (c *Canon) ConstOf(e ast.Expr) string { return c.constOf(e) }
 
@@ -451,6 +463,21 @@ func (c *Canon) scanLocals(body *ast.BlockStmt) {
 		}
 		return true
 	})
+	// `slot := idx % n; idx++; use(slot)`: a definition that reads a variable assigned again somewhere in the function
+	// names the same value only where no such assignment lies between the definition and the use: decided on the flow
+	// graph, like a definition that calls an observer
+	mutableOperand := func(e ast.Expr) bool {
+		hit := false
+		ast.Inspect(e, func(n ast.Node) bool {
+			if id, ok := n.(*ast.Ident); ok {
+				if v, isVar := c.Info.Uses[id].(*types.Var); isVar && !v.IsField() && defs[v] >= 2 {
+					hit = true
+				}
+			}
+			return !hit
+		})
+		return hit
+	}
 	for o, n := range defs {
 		if n != 1 {
 			continue
@@ -471,7 +498,7 @@ func (c *Canon) scanLocals(body *ast.BlockStmt) {
 				}
 			}
 		}
-		if e, ok := single[o]; ok && c.pureExpr(e) {
+		if e, ok := single[o]; ok && c.pureExpr(e) && !mutableOperand(e) {
 			c.expand[o] = e
 		} else if ok {
 			c.obsCand[o] = e
